@@ -70,6 +70,7 @@ type Profile struct {
 	HashPool            int
 	EqualDatesPct       int
 	RemapAny            bool // remap to prerequisite kinds even if they have no weight
+	VestingPct          int  // percentage of configurations in which user account 3 is a vesting account with locked coins
 	HostilePct          int  // percentage of genesis draws allowed to be feature-hostile (fee > funds, empty allowlist)
 	Hashers             []HasherSpec
 	Custom              map[string]func(w *World)
@@ -282,6 +283,90 @@ var hugeAmounts = []string{"1e20", "100000000000000000000", "1234567890123456789
 // Amount draws a credit amount string. avail (may be nil) biases towards the
 // boundary of what the signer has.
 func (w *World) Amount(label string, avail *big.Rat) string {
+	a := w.amount0(label, avail)
+	if w.chance(label+"?respell", 6) {
+		return w.Respell(label+"sp", a)
+	}
+	return a
+}
+
+// Respell returns another spelling of the same decimal number: zeros appended beyond the
+// credit precision, exponent notation, a sign, leading zeros. Whether the code accepts the
+// spelling is its business; if it does, the value it uses must be the value written.
+func (w *World) Respell(label, a string) string {
+	r, ok := new(big.Rat).SetString(a)
+	if !ok || strings.ContainsAny(a, "eExX_/") || strings.HasPrefix(a, "+") || strings.HasPrefix(a, "-") {
+		return a
+	}
+	_ = r
+	w.Flags["respelled-amount"] = true
+	zeros := []int{1, 2, 6, 7, 12, 18}[w.intn(label+"z", 6)]
+	switch w.intn(label, 6) {
+	case 1: // trailing zeros (beyond six decimals for most draws)
+		if strings.Contains(a, ".") {
+			return a + strings.Repeat("0", zeros)
+		}
+		return a + "." + strings.Repeat("0", zeros)
+	case 2: // exponent form, mantissa without a point: 130 -> 13e1, 2.5 -> 25e-1
+		ip, fp := a, ""
+		if i := strings.IndexByte(a, '.'); i >= 0 {
+			ip, fp = a[:i], a[i+1:]
+		}
+		digits := strings.TrimLeft(ip+fp, "0")
+		exp := -len(fp)
+		for len(digits) > 1 && strings.HasSuffix(digits, "0") {
+			digits = digits[:len(digits)-1]
+			exp++
+		}
+		if digits == "" {
+			return a
+		}
+		return fmt.Sprintf("%se%d", digits, exp)
+	case 3: // exponent form with a point: 130 -> 1.30e2
+		ip, fp := a, ""
+		if i := strings.IndexByte(a, '.'); i >= 0 {
+			ip, fp = a[:i], a[i+1:]
+		}
+		ip = strings.TrimLeft(ip, "0")
+		if len(ip) < 2 {
+			return a + "e0"
+		}
+		return ip[:1] + "." + ip[1:] + fp + fmt.Sprintf("E+%d", len(ip)-1)
+	case 4:
+		return "+" + a
+	case 5:
+		return "00" + a
+	}
+	if strings.Contains(a, ".") {
+		return a + strings.Repeat("0", zeros)
+	}
+	return a + "." + strings.Repeat("0", zeros)
+}
+
+// MutateStr derives a near miss from a valid identifier: a proper prefix, an extension, another
+// letter case, or the same text with a blank at one end.
+func (w *World) MutateStr(label, s string) string {
+	if s == "" {
+		return s
+	}
+	switch w.intn(label, 7) {
+	case 0:
+		return s[:len(s)-1]
+	case 1:
+		return s[:(len(s)+1)/2]
+	case 2:
+		return s + "2"
+	case 3:
+		return strings.ToUpper(s)
+	case 4:
+		return s + " "
+	case 5:
+		return " " + s
+	}
+	return s + "\t"
+}
+
+func (w *World) amount0(label string, avail *big.Rat) string {
 	x := w.intn(label, 100)
 	if avail != nil && avail.Sign() > 0 && x < 30 && w.chance(label+"?rel", 70) {
 		x = 40
